@@ -40,8 +40,13 @@ Definition seq_to_flag (s : string) : string :=
   if String.eqb s "Recent" then "\Recent" else
   if String.eqb s "Seen" then "\Seen" else s.
 (* keywords a client may not use: they are spelled like a reserved sequence *)
+Fixpoint str_has (p : Ascii.ascii -> bool) (s : string) : bool :=
+  match s with EmptyString => false | String c s' => p c || str_has p s' end.
+(* ... or that .mh_sequences cannot hold: a ':' ends the sequence name, the file is ASCII *)
+Definition unstorable_char (c : Ascii.ascii) : bool :=
+  Ascii.eqb c (Ascii.ascii_of_nat 58) || Nat.ltb 127 (Ascii.nat_of_ascii c).
 Definition reserved_kw (f : string) : bool :=
-  smem f ["replied"; "Deleted"; "Draft"; "flagged"; "Recent"; "Seen"; "unseen"]%string.
+  str_has unstorable_char f || smem f ["replied"; "Deleted"; "Draft"; "flagged"; "Recent"; "Seen"; "unseen"]%string.
 
 (* ------------------------------------------------------------------ data *)
 Record msg := { m_key : Z; m_uid : Z; m_cid : Z; m_date : Z; m_seqs : list string }.
